@@ -266,6 +266,22 @@ CHECKS = {
         "bounds": {"quick": "every 11th value; 2 points x 2 exponent characters", "thorough": "every 2nd value; 4 x 6 punctuation sets; all prebuilt formats"},
         "assumptions": ["specials are written and expected back only when the option string is configured and the format permits specials; generic (non power-of-two, non decimal) radices are only required to be accepted"],
     },
+    "C14": {
+        "bin": "c14",
+        "quick": cfgs(["dflt", "rdxfmt"]),
+        "thorough": cfgs(["dflt", "cmp", "rdxfmt", "cmprdxfmt"]),
+        "rule": "float values (floats nearest to every 1-2 digit decimal at every exponent and their neighbours, 2 mantissa patterns per binade, carry "
+                "shapes 9.99.., 0.0999.., 99999.5, 1.00..05 at every length 1..17, landmarks; every 9th negated) x the option product OPT_w (max / min "
+                "significant digits, Round / Truncate, trim_floats, positive and negative exponent breaks) x formats {STANDARD, no / required exponent "
+                "notation, no exponent without fraction; radix 2, 3, 16, 36 and their notation variants}. Oracle R-wopts, relative to the DEFAULT "
+                "output of the same float in the same format (parsed by the reference grammar): significant digits = default digits rounded to "
+                "max_significant_digits (half-even on the digit string / truncation, exact integer arithmetic in the radix), never more than max, padded "
+                "to min unless trimmed as an integer; exponent notation iff required or the scientific exponent (of the float or of the carried rounded "
+                "value) is outside the break points, never when forbidden, exactly one integer digit in exponent notation; trim_floats removes exactly an "
+                "all-zero fraction; only the configured decimal point / exponent bytes appear; non-trivial = cases where digits were actually cut",
+        "bounds": {"quick": "OPT_w level 1 (~6900 sets) for decimal formats, level 0 (~430) for radices; ~700 values", "thorough": "OPT_w level 2 for STANDARD; ~9000 values"},
+        "assumptions": COMMON_ASSUME + ["for radices 4, 8, 16, 32 and mixed-base formats the exponent-break comparison is not judged (binary vs digit exponent is ambiguous in the statement)", "the default output itself is vouched for by C02 / C06 / C07"],
+    },
 }
 
 # properties not claimed (reason). Kept current by hand.
